@@ -1,4 +1,5 @@
 //@ fn canonical.rs canonicalize_uri_path
+//@ params uri_path s3
 //@ hideutf8
 //@ props C08 C09 C13 C17
 //@ ret res
